@@ -563,3 +563,179 @@ Proof. split; vm_compute; reflexivity. Qed.
 Definition w_svc_last : world := [RegN 1 1; Dyn 1; Stat 1; STag 1 1; Det 1; Tok 1].
 Lemma svc_drop_breaks : inv 1 w_svc_last = true /\ disc 1 w_svc_last (svc_drop 1 1 false true) = false.
 Proof. split; vm_compute; reflexivity. Qed.
+
+(* ---------------------------------------------------------------- a second crash, during cleanup *)
+Lemma apply_Rm_filter D : forall w, apply (map Rm D) w = filter (fun x => negb (mem x D)) w.
+Proof.
+  induction D as [|r D IH]; intros w; cbn [map apply fold_left].
+  - cbn. induction w; cbn; congruence.
+  - change (fold_left (fun w st => apply1 st w) (map Rm D) (apply1 (Rm r) w)) with (apply (map Rm D) (del r w)).
+    rewrite IH. unfold del. induction w as [|a w IHw]; cbn [filter]; auto.
+    rewrite mem_cons. rewrite (res_eqb_sym a r).
+    destruct (res_eqb r a); cbn [negb orb]; auto. cbn [filter]. destruct (mem a D); cbn [negb]; congruence.
+Qed.
+
+Lemma filter_filter {A} (f g : A -> bool) l : filter f (filter g l) = filter (fun x => g x && f x) l.
+Proof. induction l as [|a l IH]; cbn; auto. destruct (g a); cbn; [destruct (f a)|]; congruence. Qed.
+
+Lemma filter_ext_In {A} (f g : A -> bool) l : (forall x, In x l -> f x = g x) -> filter f l = filter g l.
+Proof.
+  induction l as [|a l IH]; intros H; cbn; auto. rewrite (H a (or_introl eq_refl)), IH; auto.
+  intros x Hx. apply H. now right.
+Qed.
+
+(* what is still to be removed stays removable as long as everything of higher rank is still there *)
+Lemma removed_stable n w w' x :
+  (forall y, In y w' -> In y w) ->
+  (forall g, In g w -> rank x < rank g -> In g w') ->
+  removed n w x = true -> removed n w' x = true.
+Proof.
+  intros Sub Hi R.
+  assert (M : forall g, rank x < rank g -> mem g w = true -> mem g w' = true)
+    by (intros g Hg Hm; apply mem_In, Hi; [now apply mem_In|exact Hg]).
+  assert (OU : forall s, only_user n w s = true -> only_user n w' s = true)
+    by (intros s; rewrite !only_user_spec; intros H m Hm; apply H, Sub, Hm).
+  assert (PK : forall p, (forall g, In g w -> 0 < rank g -> In g w') -> port_known n w p = true -> port_known n w' p = true).
+  { intros p Hi0. rewrite !port_known_spec. intros [H|[s [H1 H2]]].
+    - left. apply Hi0; [exact H|cbn; lia].
+    - right. exists s. split; apply Hi0; auto; cbn; lia. }
+  destruct x; cbn [removed] in R |- *; auto;
+  repeat match goal with H : _ && _ = true |- _ => apply andb_true_iff in H; destruct H end;
+  repeat (apply andb_true_iff; split); auto;
+  try (apply M; [cbn; lia|assumption]);
+  try (apply PK; auto; fail);
+  try (match goal with H : _ || _ = true |- _ => apply orb_true_iff in H; destruct H as [H|H] end;
+       apply orb_true_iff; [left|right]; apply PK; auto).
+Qed.
+
+(* nothing becomes removable that was not *)
+Lemma removed_antitone n w w' x :
+  (forall y, In y w' -> In y w) ->
+  (forall s m, In (RegN s m) w -> m <> n -> In (RegN s m) w') ->
+  removed n w' x = true -> removed n w x = true.
+Proof.
+  intros Sub Keep R.
+  assert (M : forall g, mem g w' = true -> mem g w = true) by (intros g; apply mem_mono; exact Sub).
+  assert (OU : forall s, only_user n w' s = true -> only_user n w s = true).
+  { intros s. rewrite !only_user_spec. intros H m Hm. destruct (Nat.eq_dec m n) as [E|E]; [exact E|]. apply H. apply Keep; [exact Hm|exact E]. }
+  assert (PK : forall p, port_known n w' p = true -> port_known n w p = true)
+    by (intros p; apply port_known_mono; exact Sub).
+  destruct x; cbn [removed] in R |- *; auto;
+  repeat match goal with H : _ && _ = true |- _ => apply andb_true_iff in H; destruct H end;
+  repeat (apply andb_true_iff; split); auto;
+  try (match goal with H : _ || _ = true |- _ => apply orb_true_iff in H; destruct H as [H|H] end;
+       apply orb_true_iff; [left|right]; auto).
+Qed.
+
+Lemma rank_lt_10 r : rank r < 10.
+Proof. destruct r; cbn; lia. Qed.
+
+Lemma rank_9 n w r : rank r = 9 -> removed n w r = true -> r = Tok n.
+Proof. destruct r; cbn; try discriminate. intros _ H. apply Nat.eqb_eq in H. now subst. Qed.
+
+(* D: what a crashed cleaner has already removed -- any set of removable resources closed under "lower rank first" *)
+Theorem double_crash_closed n w D :
+  mem (Tok n) w = true ->
+  (forall x, In x D -> In x w /\ removed n w x = true) ->
+  (forall x y, In x D -> In y w -> removed n w y = true -> rank y < rank x -> In y D) ->
+  cleanup n (apply (map Rm D) w) = cleanup n w.
+Proof.
+  intros T F1 F2. rewrite apply_Rm_filter. set (w' := filter (fun x => negb (mem x D)) w).
+  assert (Sub : forall y, In y w' -> In y w) by (intros y Hy; apply filter_In in Hy; tauto).
+  assert (InW' : forall y, In y w' <-> In y w /\ ~ In y D).
+  { intros y. unfold w'. rewrite filter_In, negb_true_iff, mem_false. tauto. }
+  unfold cleanup at 2. rewrite T.
+  destruct (mem (Tok n) D) eqn:TD.
+  - (* the token is already gone: everything removable is gone, the second cleanup finds no dead node *)
+    apply mem_In in TD.
+    assert (T' : mem (Tok n) w' = false) by (apply mem_false; rewrite InW'; tauto).
+    unfold cleanup. rewrite T'. unfold w'. apply filter_ext_In. intros x Hx. f_equal.
+    destruct (removed n w x) eqn:R.
+    + apply mem_In. destruct (Nat.eq_dec (rank x) 9) as [E|E].
+      * now rewrite (rank_9 _ _ _ E R).
+      * apply (F2 (Tok n) x TD Hx R). pose proof (rank_lt_10 x). cbn. lia.
+    + apply mem_false. intros HD. apply F1 in HD. destruct HD. congruence.
+  - apply mem_false in TD.
+    assert (T' : mem (Tok n) w' = true) by (apply mem_In, InW'; split; [now apply mem_In|exact TD]).
+    unfold cleanup. rewrite T'. unfold w' at 2. rewrite filter_filter. apply filter_ext_In. intros x Hx.
+    destruct (removed n w x) eqn:R.
+    + destruct (mem x D) eqn:XD; cbn [negb andb]; auto.
+      apply mem_false in XD. rewrite (removed_stable n w w' x Sub); auto.
+      intros g Hg Hr. apply InW'. split; auto. intros GD.
+      apply XD. apply (F2 g x GD Hx R Hr).
+    + assert (XD : mem x D = false) by (apply mem_false; intros HD; apply F1 in HD; destruct HD; congruence).
+      rewrite XD. cbn [negb andb]. f_equal.
+      destruct (removed n w' x) eqn:R'; auto.
+      rewrite (removed_antitone n w w' x Sub) in R; auto.
+      intros s m Hm Hne. apply InW'. split; auto. intros HD. apply F1 in HD. destruct HD as [_ HD].
+      cbn in HD. apply andb_true_iff in HD. destruct HD as [HD _]. apply Nat.eqb_eq in HD. congruence.
+Qed.
+
+Definition ranked (l : list res) (lo len : nat) : list res := flat_map (fun k => of_rank k l) (seq lo len).
+
+Lemma In_of_rank k l x : In x (of_rank k l) <-> In x l /\ rank x = k.
+Proof. unfold of_rank. rewrite filter_In, Nat.eqb_eq. tauto. Qed.
+
+Lemma In_ranked l : forall len lo x, In x (ranked l lo len) <-> In x l /\ lo <= rank x < lo + len.
+Proof.
+  induction len as [|len IH]; intros lo x; unfold ranked; cbn [seq flat_map].
+  - cbn. split; [tauto|intros [_ H]; lia].
+  - rewrite in_app_iff, In_of_rank. fold (ranked l (S lo) len). rewrite IH. split.
+    + intros [[H1 H2]|[H1 H2]]; split; auto; lia.
+    + intros [H1 H2]. destruct (Nat.eq_dec (rank x) lo); [left|right]; split; auto; lia.
+Qed.
+
+Lemma In_firstn_In {A} k (l : list A) x : In x (firstn k l) -> In x l.
+Proof.
+  revert k. induction l as [|a l IH]; intros k; destruct k as [|k]; cbn; try tauto.
+  intros [H|H]; [left; exact H|right; apply (IH k); exact H].
+Qed.
+
+Lemma prefix_closed l : forall len lo k x y,
+  In x (firstn k (ranked l lo len)) -> In y (ranked l lo len) -> rank y < rank x -> In y (firstn k (ranked l lo len)).
+Proof.
+  induction len as [|len IH]; intros lo k x y Hx Hy Hr.
+  - unfold ranked in Hx. cbn in Hx. rewrite firstn_nil in Hx. destruct Hx.
+  - unfold ranked in *. cbn [seq flat_map] in *. fold (ranked l (S lo) len) in *.
+    rewrite firstn_app in *. apply in_app_iff in Hx. apply in_app_iff in Hy. apply in_app_iff.
+    destruct Hx as [Hx|Hx].
+    + exfalso. apply In_firstn_In in Hx. apply In_of_rank in Hx. destruct Hx as [_ Ex].
+      destruct Hy as [Hy|Hy]; [apply In_of_rank in Hy|apply In_ranked in Hy]; lia.
+    + assert (K : length (of_rank lo l) < k).
+      { destruct (Nat.lt_ge_cases (length (of_rank lo l)) k) as [H|H]; auto.
+        replace (k - length (of_rank lo l)) with 0 in Hx by lia. destruct Hx. }
+      destruct Hy as [Hy|Hy].
+      * left. rewrite firstn_all2 by lia. exact Hy.
+      * right. apply (IH (S lo) _ x y); auto.
+Qed.
+
+Lemma cleanup_steps_eq n w :
+  mem (Tok n) w = true -> cleanup_steps n w = map Rm (ranked (filter (removed n w) w) 0 10).
+Proof. intros T. unfold cleanup_steps. rewrite T. reflexivity. Qed.
+
+(* a cleaner that crashes behind ANY prefix of its own step list, followed by a complete second cleanup,
+   gives exactly the result of one undisturbed cleanup *)
+Theorem double_crash n w k : cleanup n (crash k (cleanup_steps n w) w) = cleanup n w.
+Proof.
+  destruct (mem (Tok n) w) eqn:T.
+  - rewrite cleanup_steps_eq by exact T. unfold crash. rewrite firstn_map.
+    set (L := filter (removed n w) w).
+    apply double_crash_closed; auto.
+    + intros x Hx. apply In_firstn_In in Hx. apply In_ranked in Hx. destruct Hx as [Hx _].
+      unfold L in Hx. apply filter_In in Hx. exact Hx.
+    + intros x y Hx Hy Ry Hr. apply (prefix_closed L 10 0 k x y); auto.
+      apply In_ranked. split; [unfold L; apply filter_In; auto|]. pose proof (rank_lt_10 y). lia.
+  - unfold cleanup_steps. rewrite T. unfold crash. rewrite firstn_nil. reflexivity.
+Qed.
+
+Lemma apply_cleanup_steps n w : apply (cleanup_steps n w) w = cleanup n w.
+Proof.
+  pose proof (double_crash n w (length (cleanup_steps n w))) as H.
+  unfold crash in H. rewrite firstn_all in H.
+  destruct (mem (Tok n) w) eqn:T.
+  - rewrite cleanup_steps_eq by exact T. rewrite apply_Rm_filter. unfold cleanup. rewrite T.
+    apply filter_ext_In. intros x Hx. f_equal.
+    apply eq_true_iff_eq. rewrite mem_In, In_ranked, filter_In. pose proof (rank_lt_10 x). split; [tauto|].
+    intros R. repeat split; auto; lia.
+  - unfold cleanup_steps, cleanup. rewrite T. reflexivity.
+Qed.
